@@ -26,6 +26,20 @@ PROPS = {
                     "evaluated on the model for every generated value (k15_prop by vm_compute) and on the implementation by the oracle",
                     "KF-C15-2: with placeholders nested below the top of the constraint, nulls and empty collections lose their type (known finding)"],
     },
+    "C16": {
+        "n_quick": 700, "n_thorough": 12000,
+        "check_fn": "k16_check",
+        "rule": "generated unmarked capsule-free values of generated types (depth 3; nulls and unknowns refined in every way (nullness, number bounds incl. infinite and exclusive ones, "
+                "string prefixes incl. ones longer than 256 bytes, collection length bounds) at every depth; numbers of every pool class: int64/uint64 limits, whole numbers beyond them, exact "
+                "float64, other decimals, precisions 24/53/64/100/512) x a constraint they conform to with dynamic placeholders at arbitrary positions; 1/14 marked at some depth for the "
+                "rejection clause; non-trivial = every case",
+        "trusted_base": TB_VALUE + ["the byte<->item mapping of MessagePack is the harness's own parser (harness/internal/mp), independent of vmihailenco/msgpack: the model works on item trees",
+                                    "SafeKnownPrefix on prefixes longer than 256 bytes is supplied to the model as a per-case table (it is C05's subject)"],
+        "assumptions": ["numbers with binary exponent beyond +-600 are not generated (decimal expansion cost in the model)"],
+        "partial": ["theorems cover marked-value rejection, the integer and infinity encodings, dynamic unknowns and the panic-freedom of the refinement replay; the round trip of string-encoded "
+                    "numbers, of refinements and of structured values is evaluated per generated case on both sides (correspondence + oracle), not proved for all inputs",
+                    "KF-C16-1: with placeholders nested below the top of the constraint, nulls, empty collections and unknown values lose their type (known finding, same format gap as KF-C15-2)"],
+    },
     "C18": {
         "n_quick": 260, "n_thorough": 6000,
         "check_fn": "k18_check",
